@@ -334,19 +334,7 @@ func checkPowerRankKey(r *Run) {
 			r.Check(t == "types.TokensToConsensusPower(param:v.StakedTokens)", "C05-R3", "PotentialConsensusPower", P.InstrPos(ret), t, "PotentialConsensusPower is "+t)
 		}
 	}
-	if g := r.fn(vT + "ConsensusPower"); g != nil {
-		for _, ret := range Returns(g) {
-			t := P.TermAt(ret.Results[0], ret).String()
-			gs := P.Guards(ret, 0)
-			if t == "0" {
-				ok, _ := HasAtom(gs, `^!\(x/pos/types\.Validator\)\.IsStaked\(param:v\)$`)
-				r.Check(ok, "C05-R3", "ConsensusPower/zero-iff-not-staked", P.InstrPos(ret), "0 only when not staked", "returns 0 under "+strings.Join(atomStrings(gs), ";"))
-			} else {
-				ok, _ := HasAtom(gs, `^\(x/pos/types\.Validator\)\.IsStaked\(param:v\)$`)
-				r.Check(ok && t == vT+"PotentialConsensusPower(param:v)", "C05-R3", "ConsensusPower/staked-power", P.InstrPos(ret), t, "returns "+t+" under "+strings.Join(atomStrings(gs), ";"))
-			}
-		}
-	}
+	consensusPowerShape(r, "C05-R3")
 	if g := r.fn("types.TokensToConsensusPower"); g != nil {
 		for _, ret := range Returns(g) {
 			t := P.TermAt(ret.Results[0], ret).String()
@@ -363,6 +351,24 @@ func checkPowerRankKey(r *Run) {
 		for _, ret := range Returns(g) {
 			t := P.TermAt(ret.Results[0], ret).String()
 			r.Check(strings.Contains(t, "Power=0") && strings.Contains(t, "param:v.PublicKey"), "C05-R3", "ABCIValidatorUpdateZero", P.InstrPos(ret), t, "ABCIValidatorUpdateZero is "+t)
+		}
+	}
+}
+
+// consensusPowerShape: ConsensusPower is 0 exactly for validators that are not Staked (C05-R3, C07-R12).
+func consensusPowerShape(r *Run, rule string) {
+	P := r.P
+	if g := r.fn(vT + "ConsensusPower"); g != nil {
+		for _, ret := range Returns(g) {
+			t := P.TermAt(ret.Results[0], ret).String()
+			gs := P.Guards(ret, 0)
+			if t == "0" {
+				ok, _ := HasAtom(gs, `^!\(x/pos/types\.Validator\)\.IsStaked\(param:v\)$`)
+				r.Check(ok, rule, "ConsensusPower/zero-iff-not-staked", P.InstrPos(ret), "0 only when not staked", "returns 0 under "+strings.Join(atomStrings(gs), ";"))
+			} else {
+				ok, _ := HasAtom(gs, `^\(x/pos/types\.Validator\)\.IsStaked\(param:v\)$`)
+				r.Check(ok && t == vT+"PotentialConsensusPower(param:v)", rule, "ConsensusPower/staked-power", P.InstrPos(ret), t, "returns "+t+" under "+strings.Join(atomStrings(gs), ";"))
+			}
 		}
 	}
 }
